@@ -294,11 +294,22 @@ fn gen_history(rng: &mut Prng, thorough: bool) -> History {
     let nops = if thorough { rng.range(10, 60) } else { rng.range(6, 30) } as usize;
     let space = *rng.pick(&[6u64, 12, 24]);
     let big = rng.chance(1, 5);
+    // one history in six uses a few keys of 17-20 KB: a flushed table whose smallest and largest
+    // keys are that long gives a manifest edit that does not fit into the rest of its 32 KiB log
+    // block and is written as several fragments (torn continuation fragments, fragmented manifests)
+    let bigkeys = rng.chance(1, 6);
     let mut ops = vec![];
     for _ in 0..nops {
         let r = rng.below(100);
         ops.push(if r < 40 {
-            Op::Put(gen_key(rng, space), gen_val(rng, big))
+            let k = if bigkeys && rng.chance(1, 4) {
+                let mut k = vec![b'K'; 17_000 + (rng.below(3_000) as usize)];
+                k.extend_from_slice(&gen_key(rng, space));
+                k
+            } else {
+                gen_key(rng, space)
+            };
+            Op::Put(k, gen_val(rng, big))
         } else if r < 52 {
             Op::Del(gen_key(rng, space))
         } else if r < 64 {
@@ -323,7 +334,7 @@ fn gen_history(rng: &mut Prng, thorough: bool) -> History {
 
 pub fn rule(torn: bool) -> &'static str {
     if torn {
-        "histories (puts, deletes, multi-key batches, fills, compactions, reopens with re-drawn options incl. both log-reuse settings) recorded on SimFs; every write operation of the stream is cut at 1 byte, half and all-but-one byte (thorough: more lengths), the image re-opened with either log-reuse setting, checked against acknowledged/in-flight contents, written to, closed and re-opened. Non-trivial = the torn operation is a write of at least 2 bytes to a WAL or manifest; distinct by (history, index, cut)."
+        "histories (puts, deletes, multi-key batches, fills, compactions, reopens with re-drawn options incl. both log-reuse settings; one history in six with keys of 17-20 KB so that manifest edits are written as several log fragments) recorded on SimFs; every write operation of the stream is cut at 1 byte, half and all-but-one byte (thorough: more lengths), the image re-opened with either log-reuse setting, checked against acknowledged/in-flight contents, written to, closed and re-opened. Non-trivial = the torn operation is a write of at least 2 bytes to a WAL or manifest; distinct by (history, index, cut)."
     } else {
         "histories (puts, deletes, multi-key batches, values spanning several 32 KiB log blocks, fills forcing flushes, manual compactions, reopens with re-drawn options incl. both log-reuse settings) recorded on SimFs; EVERY prefix of the mutating-operation stream (create/truncate, write, rename, remove, mkdir) becomes a crash image (quick: every prefix of short streams, an even sample of long ones) which is re-opened (with the log-reuse setting of the moment and its opposite), compared with the acknowledged state +/- the whole in-flight batch, written to, cleanly closed and re-opened; crashes during the recovery of a crash image are enumerated one level deep on a sample. Non-trivial = the crash falls after at least one acknowledged write; distinct by (history, index)."
     }
